@@ -76,6 +76,7 @@ CALLS = {
     "en_skipfoo_jan": P("12 January 2020", languages=["en"], settings={"SKIP_TOKENS": ["foo"]}),
     "parse_en_inst": {"op": "parse", "s": "02/03/2012", "kw": {"languages": ["fr"], "settings_obj": {"PREFER_LOCALE_DATE_ORDER": False}}},
     "hijri": {"op": "hijri", "s": "01-02-1440"},
+    "search_ru": S("с 12 января 2021 по 30 апреля 2021", languages=["ru"]),
     # a thread whose earlier call failed, then the call that is pre-empted (state a failure leaves in the thread)
     "seq_fail_fr_num": {"op": "seq", "ops": [P("12 janvier 2020", languages=["xx"]), P("02/03/2012 10:00", languages=["fr"])]},
     "seq_badtype_search": {"op": "seq", "ops": [{"op": "parse", "s": 12345, "kw": {"languages": ["en"]}}, S("on 21 October 2005 and yesterday", languages=["en"])]},
@@ -104,6 +105,7 @@ PAIRS_QUICK = [
     ("skip-tokens-or-normalize", "en_skipfoo", "en_skipbar", True), ("skip-tokens-or-normalize", "fr_norm_on", "fr_norm_off", True),
     ("search", "search_fr", "search_de", True), ("search", "search_en", "fr_num", True), ("search", "search_en", "en_tomorrow", True), ("search", "search_fr", "fr_rel", True),
     ("language-or-order", "fr_num", "fr_nolocale", True), ("skip-tokens-or-normalize", "en_skipfoo", "en_plain", True),
+    ("search", "search_en", "search_ru", True),
     ("after-failure", "seq_fail_fr_num", "jalali", True), ("after-failure", "seq_badtype_search", "en_tomorrow", True),
     ("failing-intruder", "fr_num", "search_bad", True), ("failing-intruder", "fr_num", "parse_badlang", True), ("failing-intruder", "search_en", "parse_badtz", True),
     ("settings-instance", "search_en_inst", "en_skipfoo_jan", True), ("settings-instance", "parse_en_inst", "fr_num", True), ("language-or-order", "fr_num", "hijri", True),
@@ -294,7 +296,16 @@ def explore_pairs(farm, rep, jobs, stats, seed):
                 by_line.setdefault((e[1], e[2]), []).append(i)
             lines = sorted(by_line)
             rng.shuffle(lines)
-            ks = sorted(rng.choice(by_line[l]) for l in lines[:budget_steps])
+            ks = set(rng.choice(by_line[l]) for l in lines[:budget_steps])
+            # steps the pre-empted call executes while it holds NO library lock are the windows in
+            # which an intruder really runs inside it: every distinct such line is always included
+            free = {}
+            for i, e in enumerate(evA, 1):
+                if len(e) > 4 and e[4] == 0:
+                    free.setdefault((e[1], e[2]), i)
+            ks |= set(list(free.values())[:150])
+            stats["unlocked_lines_preempted"] += len(free)
+            ks = sorted(ks)
         for k in ks:
             sched_payloads.append(dict(job["base"], plan=[[0, k], [1, INF], [0, INF]]))
             sched_idx.append((j, k))
@@ -438,7 +449,7 @@ def main(args):
         pass
 
     st = St()
-    for k in ("steps_in_A", "schedules", "violating_schedules", "blocked_on_lock", "pairs_fully_enumerated", "seeded_schedules", "intruder_ran_inside", "stalls"):
+    for k in ("steps_in_A", "schedules", "violating_schedules", "blocked_on_lock", "pairs_fully_enumerated", "seeded_schedules", "intruder_ran_inside", "stalls", "unlocked_lines_preempted"):
         st[k] = 0
     st.update(stats_sets)
     pairs = list(PAIRS_QUICK)
@@ -461,7 +472,7 @@ def main(args):
         warm_only = stratum.endswith(":warm")
         name = stratum.split(":")[0]
         if tier == "quick":
-            jobs.append({"stratum": name, "a": a, "b": b, "warm": True if warm_only else rng.random() < 0.5, "budget_steps": 70, "rng": rng})
+            jobs.append({"stratum": name, "a": a, "b": b, "warm": True if warm_only else (False if name == "search" else rng.random() < 0.5), "budget_steps": 70, "rng": rng})  # searches start cold: their lazy one-time initialisation is part of the race
         else:
             # warm state: every dynamic step (complete for the stated family on that pair);
             # cold state (lazy initialisation races): every distinct source line, three occurrences each
